@@ -368,7 +368,7 @@ B("C10", BASE, "        self.base.to_jax()\n        pstate = params_to_pstate(tr
   "        pstate = params_to_pstate(trainable_params, self.base.indices_set_by_trainables)\n        all_params = self.base.get_all_parameters(pstate, voltage_solver=\"jaxley.stone\")\n        self.base.to_jax()", "R-C10-tojax")
 # key class decided on the base (C08/C11/C19)
 for _p in ("C08", "C11", "C19"):
-    B(_p, BASE, '            is_edge_state = ptr_recs["state"].isin(self._edge_state_names())', '            is_edge_state = ptr_recs["state"].isin(self.synapse_state_names + self.synapse_current_names)', "R-%s-keyclass" % _p)
+    B(_p, BASE, '            is_edge_state = ptr_recs["state"].isin(self._edge_state_names())', '            is_edge_state = ptr_recs["state"].isin(self.synapse_state_names + self.base.synapse_current_names)', "R-%s-keyclass" % _p)
     # F20 (repaired): synaptic currents are edge quantities too
     B(_p, BASE, '            is_edge_state = ptr_recs["state"].isin(self._edge_state_names())', '            is_edge_state = ptr_recs["state"].isin(self.base.synapse_state_names)', "R-%s-keyclass" % _p)
     B(_p, IG, "    edge_state_names = module._edge_state_names()", "    edge_state_names = module.synapse_state_names", "R-%s-keyclass" % _p)
